@@ -19,7 +19,17 @@ def _s(v):
     with decimal.localcontext() as c:
         c.prec = 80
         d = Decimal(v["s"] * v["m"]).scaleb(v["e"]) + v["eps"] * Decimal("1e-20")
-        return format(d, "f")
+        t = format(d, "f")
+    sp = v.get("sp", 0)          # other spellings of the same number: the comparison is about the quantity, not the text
+    if sp == 1:
+        t = t + ("0" if "." in t else ".0")
+    elif sp == 2:
+        t = t + ("00" if "." in t else ".00")
+    elif sp == 3 and v["m"] == 0:
+        t = "-" + t if not t.startswith("-") else t
+    elif sp == 3:
+        t = "0" + t if not t.startswith("-") else "-0" + t[1:]
+    return t
 
 
 def _val(m, e, eps=0, s=1):
@@ -77,7 +87,16 @@ def _grid(ua, ub, rnd, quick):
                     pairs.append((dict(a, eps=ea), dict(b, eps=eb)))
     if quick:
         pairs = [p for i, p in enumerate(pairs) if p[0]["eps"] == 0 or p[1]["eps"] == 0 or i % 3 == 0]
-    return pairs
+    # the same numbers written differently ("0" / "0.0" / "-0", "5" / "5.0" / "05"): one side, then the other
+    spelled = []
+    for a, b in pairs:
+        if a["eps"] == 0 and b["eps"] == 0:
+            for sp in (1, 2, 3):
+                spelled.append((dict(a, sp=sp), b))
+                spelled.append((a, dict(b, sp=sp)))
+    if quick:
+        spelled = [p for i, p in enumerate(spelled) if i % 2 == 0 or p[0]["m"] == 0 or p[1]["m"] == 0]
+    return pairs + spelled
 
 
 def _temp_ok(v):
